@@ -118,7 +118,7 @@ theorem sortedKeys_pairwise {pkg defs req} : ∀ {ps : List (String × JS)} {fs 
 
 theorem sortFields_id {pkg defs req} {ps : List (String × JS)} {fs : List Field}
     (hs : sortedKeys ps = true) (hb : FieldsBuilt pkg defs req ps fs) : sortFields fs = fs :=
-  List.mergeSort_of_pairwise (sortedKeys_pairwise hs hb)
+  isort_of_pairwise _ (sortedKeys_pairwise hs hb)
 
 theorem fragBranches_two {defs : Defs} {x y : JS} (h : fragBranches defs [x, y] = true) :
     (isNullS x = true ∨ (frag defs false x = true ∧ refToColl defs x = false)) ∧
